@@ -292,3 +292,79 @@ pub fn decor_ctors() -> Vec<Ctor> {
         un(Op::MapErr),
     ]
 }
+
+/// Contexts that abandon or keep-under-lookahead their first child `e` (arity 3: e, x, y): used to
+/// put emitters / recoveries / probes on paths that are later abandoned, and on kept ones.
+pub fn abandon_templates() -> Vec<Ctor> {
+    fn t(f: impl Fn(G, G, G) -> G + Send + Sync + 'static) -> Ctor {
+        ctor(3, move |mut k| {
+            let y = k.remove(2);
+            let x = k.remove(1);
+            let e = k.remove(0);
+            f(e, x, y)
+        })
+    }
+    use Op::*;
+    vec![
+        // alternative abandoned after the emitter succeeded
+        t(|e, x, y| G::bin(Or, G::bin(Then, e, x), y)),
+        t(|e, x, y| G::new(ChoiceTup, vec![G::bin(Then, e, x.clone()), y, x])),
+        t(|e, x, y| G::new(Choice, vec![G::bin(ThenIgnore, e, x), y])),
+        // optional abandoned / kept
+        t(|e, x, y| G::bin(Then, G::un(OrNot, G::bin(Then, e, x)), y)),
+        // repetition attempt abandoned on its last iteration
+        t(|e, x, y| G::bin(Then, G::rep(G::bin(Then, e, x), 0, None, Flav::Vec), y)),
+        t(|e, x, y| G::bin(Then, G::rep(G::bin(IgnoreThen, e, x), 1, Some(2), Flav::Count), y)),
+        t(|e, x, y| {
+            let mut s = G::new(Sep, vec![e, x]);
+            s.p.flav = Flav::Vec;
+            G::bin(Then, s, y)
+        }),
+        t(|e, x, y| {
+            let mut s = G::new(Sep, vec![x, e]);
+            s.p.flav = Flav::Vec;
+            s.p.trail = true;
+            G::bin(Then, s, y)
+        }),
+        // negative lookahead: everything inside is abandoned
+        t(|e, x, y| G::bin(Then, G::un(Not, G::bin(Then, e, x)), y)),
+        // kept under lookahead
+        t(|e, x, y| G::bin(Then, G::bin(AndIs, e, x), y)),
+        t(|e, x, y| G::bin(Then, G::bin(AndIs, x, e), y)),
+        t(|e, x, y| G::bin(Then, G::un(Rewind, G::bin(Then, e, x)), y)),
+        t(|e, x, y| G::bin(Or, G::bin(Then, G::un(Rewind, e), x), y)),
+        // folds
+        t(|e, x, y| {
+            let mut f = G::new(Foldl, vec![y, G::rep(G::bin(Then, e, x), 0, None, Flav::Unit)]);
+            f.p.ok = true;
+            f
+        }),
+        t(|e, x, y| G::new(Foldr, vec![G::rep(G::bin(Then, e, x), 0, Some(2), Flav::Unit), y])),
+        // fixed-size collection running short
+        t(|e, x, y| G::bin(Or, G::rep(G::bin(Then, e, x), 2, Some(2), Flav::Arr2).with(|p| p.via = Via::Exactly), y)),
+        // filter / try_map rejecting a value that carried emissions
+        t(|e, x, y| G::bin(Or, G::un(Filter, G::bin(Then, e, x)).with(|p| p.pred = Pred::Lacks('b')), y)),
+        t(|e, x, y| G::bin(Or, G::un(TryMap, G::bin(Then, e, x)).with(|p| p.pred = Pred::LenIs(1)), y)),
+        // group / delimiters
+        t(|e, x, y| G::bin(Or, G::new(Group, vec![e, x.clone(), x]), y)),
+        t(|e, x, y| G::bin(Or, G::new(Delim, vec![e, x.clone(), x]), y)),
+    ]
+}
+
+/// Apply every template to every (e, x, y) triple.
+pub fn instantiate(templates: &[Ctor], es: &[G], xs: &[G], ys: &[G]) -> Vec<G> {
+    let mut out = vec![];
+    for t in templates {
+        for e in es {
+            for x in xs {
+                for y in ys {
+                    let g = (t.make)(vec![e.clone(), x.clone(), y.clone()]);
+                    if g.well_formed() {
+                        out.push(g.numbered());
+                    }
+                }
+            }
+        }
+    }
+    out
+}
